@@ -590,6 +590,23 @@ def run_op(s, op, a, tmp, i, rr):
     api = op['api']
     if api == 'resume':
         return _resume_op(s, op, rr)
+    if api == 'drop':
+        # the caller closes / drops a generator it had kept (sync: close(); async: aclose())
+        h = rr.held.pop(op['gen'], None)
+        if h is not None:
+            from . import sched as _sched
+            tok = _sched.CUR.set(op['gen'])
+            try:
+                if s.mode == 'sync':
+                    h['gen'].close()
+                else:
+                    s.loop.run_until_complete(h['gen'].aclose())
+                s.rec.ev('abandon', api='streaming_shell', avail=bool(s.device.available))
+            except Exception as e:  # noqa
+                s.rec.ev('exc', api='streaming_shell', cls=type(e).__name__, avail=bool(s.device.available), clk=int(s.clock.time()))
+            finally:
+                _sched.CUR.reset(tok)
+        return env.Outcome('ret', value=None)
     if api == 'clock':
         s.clock.advance(op['advance'])        # wall-clock time passes between two operations
         return env.Outcome('ret', value=None)
